@@ -14,6 +14,14 @@ TRUSTED_BASE = {
 }
 
 PROPS = {
+    "C16": {
+        "tests": ["TestC16"],
+        "race": True,
+        "post": "c16post",
+        "design_ref": "DESIGN.md §3.16",
+        "level_text": "TODO",
+        "level_note": "TODO",
+    },
     "C15": {
         "tests": ["TestC15"],
         "design_ref": "DESIGN.md §3.15",
